@@ -390,6 +390,10 @@ type Workload struct {
 	Codec string     `json:"codec"` // new | proto_to_any | global | reflector | shared_cache
 	Warm  []OpSpec   `json:"warm,omitempty"`
 	Tasks [][]OpSpec `json:"tasks"`
+	// SharedInputs: operations with the same spec share one prepared message INSTANCE, which the
+	// encode-type operations hand to the codec as it is (several goroutines encoding one message
+	// they all only read). Otherwise every execution gets its own clone.
+	SharedInputs bool `json:"shared_inputs,omitempty"`
 }
 
 func (w *Workload) Digest() string {
@@ -409,11 +413,11 @@ func (w *Workload) NumOps() int {
 // Env is the shared object under test for one run.
 type Env struct {
 	codec2 *codec.Codec // two_codecs: a second, independent instance used by the same tasks
-	codec *codec.Codec
-	refl  *j5reflect.Reflector
-	refl2 *j5reflect.Reflector // second reflector over the same cache (shared_cache)
-	cache *j5schema.SchemaCache
-	plain *codec.Codec // private reference codec used only to prepare inputs
+	codec  *codec.Codec
+	refl   *j5reflect.Reflector
+	refl2  *j5reflect.Reflector // second reflector over the same cache (shared_cache)
+	cache  *j5schema.SchemaCache
+	plain  *codec.Codec // private reference codec used only to prepare inputs
 }
 
 func newEnv(kind string) *Env {
@@ -431,6 +435,10 @@ func newEnv(kind string) *Env {
 		e.codec = j5codec.NewCodec(j5codec.WithResolver(plainResolver{}))
 	case "resolver_proto_to_any":
 		e.codec = j5codec.NewCodec(j5codec.WithResolver(plainResolver{}), j5codec.WithProtoToAny())
+	case "narrow_resolver":
+		e.codec = j5codec.NewCodec(j5codec.WithResolver(narrowResolver{}))
+	case "narrow_resolver_proto_to_any":
+		e.codec = j5codec.NewCodec(j5codec.WithResolver(narrowResolver{}), j5codec.WithProtoToAny())
 	case "global":
 		// the package-level default, re-created so that every run starts cold
 		codec.Global = codec.NewCodec()
@@ -452,6 +460,21 @@ func newEnv(kind string) *Env {
 type plainResolver struct{}
 
 func (plainResolver) FindMessageByName(name protoreflect.FullName) (protoreflect.MessageType, error) {
+	return protoregistry.GlobalTypes.FindMessageByName(name)
+}
+
+// narrowResolver knows only part of what is linked in: an Any of a hidden type cannot be
+// resolved on such a codec - every time, whatever else the codec has been used for.
+type narrowResolver struct{}
+
+var hiddenTypes = []string{"test.schema.v1.Bar", "test.foo.v1.Bar"}
+
+func (narrowResolver) FindMessageByName(name protoreflect.FullName) (protoreflect.MessageType, error) {
+	for _, h := range hiddenTypes {
+		if string(name) == h {
+			return nil, protoregistry.NotFound
+		}
+	}
 	return protoregistry.GlobalTypes.FindMessageByName(name)
 }
 
@@ -497,12 +520,13 @@ func canonProto(m proto.Message) string {
 // prepared inputs are computed once per op (outside any simulation), so every
 // execution of the op sees byte-identical input.
 type Prepared struct {
-	Spec  OpSpec
-	TI    *TypeInfo
-	Msg   proto.Message // populated message (cloned per execution)
-	JSON  []byte
-	Query url.Values
-	Any   *any_j5t.Any
+	Spec   OpSpec
+	TI     *TypeInfo
+	Msg    proto.Message // populated message (cloned per execution unless Shared)
+	Shared bool
+	JSON   []byte
+	Query  url.Values
+	Any    *any_j5t.Any
 }
 
 func prepare(spec OpSpec) *Prepared {
@@ -515,7 +539,7 @@ func prepare(spec OpSpec) *Prepared {
 	if spec.Poison != 0 {
 		poison(m, spec.Poison)
 	}
-	p.Msg = m.Interface()
+	p.Msg = proto.Clone(m.Interface()) // the cloned form: shared and per-execution inputs are the same value
 	switch spec.Kind {
 	case "decode":
 		js, err := safeEncode(codec.NewCodec(), m)
@@ -533,7 +557,9 @@ func prepare(spec OpSpec) *Prepared {
 		} else {
 			a.Proto, _ = proto.MarshalOptions{Deterministic: true}.Marshal(p.Msg)
 		}
-		p.Any = a
+		// the clone is what every execution sees (proto.Clone turns an empty non-nil bytes field into
+		// nil, which DecodeAnyTo tells apart): shared and per-execution inputs must be the same value
+		p.Any = proto.Clone(a).(*any_j5t.Any)
 	}
 	return p
 }
@@ -829,8 +855,23 @@ func buildQuery(m protoreflect.Message, mutate int, seed uint64) url.Values {
 	return q
 }
 
+// inputMsg is the message an encode-type operation passes to the codec.
+func inputMsg(p *Prepared) protoreflect.Message {
+	if p.Shared {
+		return p.Msg.ProtoReflect()
+	}
+	return proto.Clone(p.Msg).ProtoReflect()
+}
+
 // execOp runs one operation against the shared environment and
 // canonicalises its result.
+func inputAny(p *Prepared) *any_j5t.Any {
+	if p.Shared {
+		return p.Any
+	}
+	return proto.Clone(p.Any).(*any_j5t.Any)
+}
+
 func execOp(e *Env, p *Prepared) (out Outcome) {
 	defer func() {
 		if r := recover(); r != nil {
@@ -844,7 +885,7 @@ func execOp(e *Env, p *Prepared) (out Outcome) {
 	refl := e.refl
 	switch p.Spec.Kind {
 	case "encode":
-		msg := proto.Clone(p.Msg).ProtoReflect()
+		msg := inputMsg(p)
 		if e.codec == nil {
 			return walkOp(refl, msg)
 		}
@@ -856,7 +897,7 @@ func execOp(e *Env, p *Prepared) (out Outcome) {
 	case "decode":
 		msg := p.TI.Type.New()
 		if e.codec == nil {
-			return walkOp(refl, proto.Clone(p.Msg).ProtoReflect())
+			return walkOp(refl, inputMsg(p))
 		}
 		if err := e.codec.JSONToProto(p.JSON, msg); err != nil {
 			return fail(err)
@@ -872,7 +913,7 @@ func execOp(e *Env, p *Prepared) (out Outcome) {
 		}
 		return Outcome{Class: "ok", Canon: canonProto(msg.Interface())}
 	case "encode_any":
-		msg := proto.Clone(p.Msg).ProtoReflect()
+		msg := inputMsg(p)
 		if e.codec == nil {
 			return walkOp(refl, msg)
 		}
@@ -893,12 +934,12 @@ func execOp(e *Env, p *Prepared) (out Outcome) {
 		if e.codec == nil {
 			return schemaOp(e, p)
 		}
-		if err := e.codec.DecodeAnyTo(proto.Clone(p.Any).(*any_j5t.Any), msg); err != nil {
+		if err := e.codec.DecodeAnyTo(inputAny(p), msg); err != nil {
 			return fail(err)
 		}
 		return Outcome{Class: "ok", Canon: canonProto(msg)}
 	case "walk":
-		msg := proto.Clone(p.Msg).ProtoReflect()
+		msg := inputMsg(p)
 		if refl == nil {
 			// codec environments: exercise the reflector through a second codec call instead
 			b, err := e.codec.ProtoToJSON(msg)
@@ -960,9 +1001,9 @@ func walkOp(refl *j5reflect.Reflector, msg protoreflect.Message) Outcome {
 func schemaOp(e *Env, p *Prepared) Outcome {
 	if e.cache == nil {
 		if e.refl != nil {
-			return walkOp(e.refl, proto.Clone(p.Msg).ProtoReflect())
+			return walkOp(e.refl, inputMsg(p))
 		}
-		b, err := e.codec.ProtoToJSON(proto.Clone(p.Msg).ProtoReflect())
+		b, err := e.codec.ProtoToJSON(inputMsg(p))
 		if err != nil {
 			return Outcome{Class: "error", Text: err.Error()}
 		}
@@ -991,7 +1032,7 @@ func trimStack(b []byte) string {
 
 // ---------------------------------------------------------------- workload generation
 
-var codecKinds = []string{"new", "new", "new", "proto_to_any", "global", "reflector", "shared_cache", "resolver", "resolver_proto_to_any", "two_codecs"}
+var codecKinds = []string{"new", "new", "new", "proto_to_any", "global", "reflector", "shared_cache", "resolver", "resolver_proto_to_any", "two_codecs", "narrow_resolver", "narrow_resolver_proto_to_any"}
 var opKinds = []string{"encode", "encode", "encode", "decode", "decode", "query", "encode_any", "decode_any", "walk", "schema"}
 
 func genWorkload(seed uint64, deep bool) *Workload {
@@ -1037,6 +1078,15 @@ func genWorkload(seed uint64, deep bool) *Workload {
 			}
 		}
 	}
+	if strings.HasPrefix(w.Codec, "narrow_resolver") {
+		// messages of the hidden types as roots next to messages that carry them inside an Any
+		for _, h := range hiddenTypes {
+			if rng.Bool(0.7) {
+				pool = append(pool, catByName[h])
+			}
+		}
+		pool = append(pool, catByName["test.schema.v1.FullSchema"])
+	}
 	maxTasks, maxOps := 4, 3
 	if deep {
 		maxTasks, maxOps = 5, 5
@@ -1062,17 +1112,36 @@ func genWorkload(seed uint64, deep bool) *Workload {
 			}
 		}
 		if (op.Kind == "decode" || op.Kind == "query" || op.Kind == "decode_any") && rng.Bool(0.2) {
-			op.Mutate = 1 + rng.Intn(9) // (usually) failing operation by construction; 7..9 are seeded tree mutations
+			op.Mutate = []int{1, 2, 3, 4, 5, 5, 5, 6, 6, 7, 8, 9}[rng.Intn(12)] // (usually) failing operation by construction; 7..9 are seeded tree mutations
 		}
 		if (op.Kind == "encode" || op.Kind == "encode_any" || op.Kind == "walk") && rng.Bool(0.12) {
 			op.Poison = 1 + rng.Intn(2) // failing encode: fails after part of the output was written
 		}
 		return op
 	}
+	// shared input instances: a few common specs that several tasks execute on the very same message
+	var common []OpSpec
+	if rng.Bool(0.15) {
+		w.SharedInputs = true
+		for i, n := 0, 1+rng.Intn(3); i < n; i++ {
+			op := mkOp()
+			op.Kind = []string{"encode", "encode", "encode_any", "walk", "decode_any"}[rng.Intn(5)]
+			if op.Kind != "decode_any" {
+				op.Mutate = 0
+			} else {
+				op.Poison = 0
+			}
+			common = append(common, op)
+		}
+	}
 	for t := 0; t < nTasks; t++ {
 		n := 1 + rng.Intn(maxOps)
 		var ops []OpSpec
 		for i := 0; i < n; i++ {
+			if len(common) > 0 && rng.Bool(0.6) {
+				ops = append(ops, common[rng.Intn(len(common))])
+				continue
+			}
 			ops = append(ops, mkOp())
 		}
 		w.Tasks = append(w.Tasks, ops)
